@@ -231,8 +231,11 @@ func genRib(g *common.Gen, r *common.Rand) {
 }
 
 func gen(g *common.Gen) {
+	// consecutive VERIF_SEEDs give splitmix streams shifted by one draw: re-seed from the first draw so
+	// that the batches of the thorough tier are unrelated
+	base := common.NewRand(g.R.U64() ^ 0x5bd1e995c08)
 	for i := 0; i < g.N; i++ {
-		r := g.R.Fork()
+		r := base.Fork()
 		switch i % 5 {
 		case 0, 1, 2:
 			genPit(g, r)
